@@ -40,6 +40,14 @@ static int current_num_values;
 static size_t last_size_generated;
 static int line_being_generated;
 
+#ifdef NEOLITH_VERIF
+/* verification trace point: reports every line-number bookkeeping event of the compiler
+ * kind: 'b' parser initialised, 's' switch_to_line (a=line, b=code address, c=current block),
+ *       'i' __INIT placed (a=base address, b=size), 'e' final program (a=program size),
+ *       'f' save_file_info (a=file id, b=lines), 'a' add_program_file (a=file id, s=name) */
+void (*verif_line_hook) (int kind, long a, long b, long c, const char *s) = 0;
+#endif
+
 static int push_state;
 static int push_start;
 
@@ -350,6 +358,10 @@ static void switch_to_line (int line) {
   short s;
   unsigned char *p;
 
+#ifdef NEOLITH_VERIF
+  if (verif_line_hook)
+    verif_line_hook ('s', (long) line, (long) CURRENT_PROGRAM_SIZE, (long) current_block, 0);
+#endif
   /* should be fixed later */
   if (current_block != A_PROGRAM)
     return;
@@ -1003,6 +1015,10 @@ i_generate_inherited_init_call (int index, int f)
 void
 i_generate___INIT ()
 {
+#ifdef NEOLITH_VERIF
+  if (verif_line_hook)
+    verif_line_hook ('i', (long) mem_block[A_PROGRAM].current_size, (long) mem_block[A_INITIALIZER].current_size, 0, 0);
+#endif
   add_to_mem_block (A_PROGRAM, (char *) mem_block[A_INITIALIZER].block,
                     mem_block[A_INITIALIZER].current_size);
   prog_code = mem_block[A_PROGRAM].block + mem_block[A_PROGRAM].current_size;
@@ -1114,6 +1130,10 @@ i_initialize_parser ()
 
   line_being_generated = 0;
   last_size_generated = 0;
+#ifdef NEOLITH_VERIF
+  if (verif_line_hook)
+    verif_line_hook ('b', 0, 0, 0, 0);
+#endif
 }
 
 void
@@ -1128,6 +1148,10 @@ i_generate_final_program (int x)
  */
       save_file_info (current_file_id, current_line - current_line_saved);
       switch_to_line (-1);	/* generate line numbers for the end */
+#ifdef NEOLITH_VERIF
+      if (verif_line_hook)
+        verif_line_hook ('e', (long) CURRENT_PROGRAM_SIZE, 0, 0, current_file);
+#endif
     }
 }
 
